@@ -25,4 +25,22 @@ Record R (q : ring A) (l : list A) : Prop := {
   R_dead : forall j, (forall i, i < len q -> pos (head q) (cap q) i <> j) -> buf q j = None
 }.
 
+(* V v l: the FastVec v holds exactly the sequence l in slots 0..len, every slot from len on is uninitialised *)
+Record V (v : fvec A) (l : list A) : Prop := {
+  V_len : vlen v = N.of_nat (length l);
+  V_le : vlen v <= vcap v;
+  V_live : forall i, (i < length l)%nat -> vbuf v (N.of_nat i) = nth_error l i;
+  V_dead : forall j, vlen v <= j -> vbuf v j = None
+}.
+
+(* F n q l: the FixedCircularQueue<_, n> q holds exactly the sequence l *)
+Record F (n : N) (q : fixedq A) (l : list A) : Prop := {
+  F_count : fcount q = N.of_nat (length l);
+  F_le : fcount q <= n;
+  F_head : fhead q < n;
+  F_tail : ftail q = pos (fhead q) n (fcount q);
+  F_live : forall i, (i < length l)%nat -> fbuf q (pos (fhead q) n (N.of_nat i)) = nth_error l i;
+  F_dead : forall j, (forall i, i < fcount q -> pos (fhead q) n i <> j) -> fbuf q j = None
+}.
+
 End Spec.
